@@ -24,6 +24,14 @@ impl Tier {
     }
 }
 
+/// Tier name reported in the evidence and on the summary line when it differs from the exploration
+/// tier (quick tiers that run the thorough alphabet because it is cheap enough).
+pub static TIER_LABEL: std::sync::OnceLock<&'static str> = std::sync::OnceLock::new();
+
+pub fn tier_label(t: Tier) -> &'static str {
+    TIER_LABEL.get().copied().unwrap_or(t.name())
+}
+
 pub struct Viol {
     pub what: String,
     pub case: Value,
@@ -200,7 +208,8 @@ impl Ctx {
         }
         let ev = json!({
             "property_id": self.prop,
-            "tier": self.tier.name(),
+            "tier": tier_label(self.tier),
+            "alphabet_tier": self.tier.name(),
             "seed": self.seed,
             "level": level,
             "coverage": coverage,
@@ -221,7 +230,7 @@ impl Ctx {
             "{} {} tier={} evaluations={} wall={:.1}s known_findings={} unlisted_violations={}",
             self.prop,
             if unlisted == 0 { "OK" } else { "FAIL" },
-            self.tier.name(),
+            tier_label(self.tier),
             self.evals.load(Ordering::Relaxed),
             wall,
             known_hit,
